@@ -13,6 +13,7 @@ import (
 
 	eventbus "github.com/jilio/ebu"
 	"github.com/jilio/ebu/state"
+	"verif/storekit"
 	"verif/vkit"
 )
 
@@ -44,6 +45,23 @@ type Case struct {
 	Strict bool  `json:"strict,omitempty"`
 	Split  int   `json:"split"`            // first session applies Msgs[:Split]
 	Direct bool  `json:"direct,omitempty"` // Apply directly instead of publish+store+replay
+	// Store selects the store of the published form: "" memory, "sqlite"
+	// (unpadded decimal offsets), "durable" (in-process durable-streams server).
+	Store string `json:"store,omitempty"`
+	// OffStyle selects the offsets of hand-built events in Direct mode:
+	// 0 zero-padded, 1 unpadded decimal, 2 opaque unordered tokens.
+	OffStyle int `json:"off_style,omitempty"`
+}
+
+func (c *Case) offset(i int) eventbus.Offset {
+	switch c.OffStyle {
+	case 1:
+		return eventbus.Offset(fmt.Sprint(i + 1))
+	case 2:
+		// unique, not ordered in any way: offsets are opaque to the materializer
+		return eventbus.Offset(fmt.Sprintf("%x-%d", (uint32(i+1)*2654435761)>>8, i+1))
+	}
+	return eventbus.Offset(fmt.Sprintf("%08d", i+1))
 }
 
 type mat struct {
@@ -220,7 +238,29 @@ var errStopSession = errors.New("end of first session")
 func Run(c *Case) *vkit.Outcome {
 	o := &vkit.Outcome{}
 	ctx := context.Background()
-	store := eventbus.NewMemoryStore()
+	var store eventbus.EventStore = eventbus.NewMemoryStore()
+	if !c.Direct {
+		switch c.Store {
+		case "sqlite":
+			storekit.SetVariant(vkit.HashOf(c))
+			dir, cleanup := storekit.TempDir("c18-")
+			defer cleanup()
+			st, err := storekit.OpenSQLite(dir, "s.db")
+			if err != nil {
+				o.Failf("", "open: %v", err)
+				return o
+			}
+			defer st.Close()
+			store = st
+		case "durable":
+			st, err := storekit.NewDSServer(0).Open("state")
+			if err != nil {
+				o.Failf("", "open: %v", err)
+				return o
+			}
+			store = st
+		}
+	}
 	bus := eventbus.New(eventbus.WithStore(store))
 	// build and persist
 	var events []*eventbus.StoredEvent
@@ -232,7 +272,7 @@ func Run(c *Case) *vkit.Outcome {
 		}
 		if c.Direct {
 			data, _ := json.Marshal(msg)
-			events = append(events, &eventbus.StoredEvent{Offset: eventbus.Offset(fmt.Sprintf("%08d", i+1)), Type: eventbus.EventType(msg), Data: data})
+			events = append(events, &eventbus.StoredEvent{Offset: c.offset(i), Type: eventbus.EventType(msg), Data: data})
 			continue
 		}
 		switch v := msg.(type) {
@@ -343,11 +383,19 @@ func Run(c *Case) *vkit.Outcome {
 	}
 
 	// two sessions: [0,split) then resume from LastOffset
-	two := newMat(c.Strict)
 	split := c.Split
 	if split > len(events) {
 		split = len(events)
 	}
+	if !c.Direct && c.Store == "durable" {
+		// the durable-streams store cannot be resumed from an event's offset
+		// (C10 known finding durablestream:synthetic-event-offset); only the
+		// single-session fold is judged on it.
+		o.Exclude("two_session_resume_on_durable_store", 1)
+		goto classify
+	}
+	{
+	two := newMat(c.Strict)
 	if c.Direct {
 		n, err := applyRange(two, 0, split)
 		if err == nil {
@@ -368,6 +416,8 @@ func Run(c *Case) *vkit.Outcome {
 		}
 	}
 	check(fmt.Sprintf("two sessions split at %d", split), two)
+	}
+classify:
 
 	// classification
 	seenWrite := map[string]bool{}
@@ -389,6 +439,14 @@ func Run(c *Case) *vkit.Outcome {
 	}
 	if o.Nontrivial {
 		o.Class("delete_or_reset_after_write_with_split_inside")
+	}
+	if c.Direct {
+		o.Class(fmt.Sprintf("direct_offstyle_%d", c.OffStyle))
+	} else {
+		o.Class("store_" + map[string]string{"": "memory"}[c.Store] + c.Store)
+	}
+	if len(c.Msgs) >= 10 {
+		o.Class("ten_or_more_messages")
 	}
 	if stopAt >= 0 {
 		o.Class("strict_stop_on_unregistered_type")
